@@ -111,7 +111,7 @@ Proof.
 Qed.
 
 (** * every world step preserves the invariant *)
-Theorem wstep_HoldW nw w w' : wstep nw w w' -> HoldW w -> HoldW w'.
+Theorem wstep_HoldW n nw w w' : wstep n nw w w' -> HoldW w -> HoldW w'.
 Proof.
   intros S HW. pose proof HW as [H1 H2 H3 H4 H5]. destruct S.
   - apply HoldW_updd; assumption.
@@ -210,14 +210,14 @@ Proof.
     + intro m. unfold hold_total. cbn. rewrite (hold_sum_map (upd_part_in_dev pid f)) by reflexivity. apply H5.
 Qed.
 
-Theorem R_HoldW nw w w' : R nw w w' -> HoldW w -> HoldW w'.
+Theorem R_HoldW n nw w w' : R n nw w w' -> HoldW w -> HoldW w'.
 Proof. induction 1 as [|w1 w2 w3 S _ IH]; intro H; [exact H|]. apply IH. eapply wstep_HoldW; eauto. Qed.
 
 Corollary exec_HoldW nw fuel uops a w : HoldW w -> HoldW (exec_fact fuel uops a w nw).
-Proof. apply (R_HoldW nw), R_exec_fact. Qed.
+Proof. apply (R_HoldW MFull nw), R_exec_fact. reflexivity. Qed.
 
 Corollary uop_HoldW fuel nw w o : HoldW w -> HoldW (run_uop fuel nw w o).
-Proof. apply (R_HoldW nw), R_run_uop. Qed.
+Proof. apply (R_HoldW MNeutral nw), R_run_uop. Qed.
 
 (** one executed event of the whole system (any tie-break weights) *)
 Theorem step_HoldW sc ws s r :
